@@ -55,6 +55,9 @@ class Contract:
 
 
 # ---------------------------------------------------------------------------- solving
+PREFER = []      # optional soft constraints for counter-models (set by a property before solving): nicer witnesses replay better
+
+
 def _solve_child(goal, pc, extra, timeout_ms, inputs, wfd):
     """runs in a forked child: z3 with the real definitions; writes a JSON verdict to the pipe"""
     try:
@@ -71,6 +74,20 @@ def _solve_child(goal, pc, extra, timeout_ms, inputs, wfd):
             from .sorts import get_world
             w = get_world()
             m = s.model()
+            for pref in PREFER:
+                try:
+                    cs = pref(inputs)
+                    s.push()
+                    s.set('timeout', 3000)
+                    for c in cs:
+                        s.add(c)
+                    if s.check() == z3.sat:
+                        m = s.model()
+                        s.pop()
+                        break
+                    s.pop()
+                except Exception:
+                    pass
             mi = {}
             for k, c in inputs.items():
                 try:
